@@ -64,4 +64,12 @@ theorem src :
     Gen.Bip39.src_wordlists_Japanese = Expect.Bip39_src_wordlists_Japanese :=
   ⟨rfl, rfl, rfl, rfl, rfl, rfl, rfl, rfl, rfl, rfl, rfl, rfl, rfl, rfl, rfl, rfl, rfl, rfl, rfl, rfl, rfl, rfl⟩
 
+/-- everything else the package declares (imports, constants, types, variables, build constraints and the functions not
+pinned one by one) is unchanged too: no declaration of the modelled packages can change without a tie theorem failing. -/
+theorem rest :
+    Gen.Bip39.rest_bip39 = Expect.Bip39_rest_bip39 ∧
+    Gen.Bip39.rest_wordlists_glue = Expect.Bip39_rest_wordlists_glue ∧
+    Gen.Bip39.rest_wordlist = Expect.Bip39_rest_wordlist :=
+  ⟨rfl, rfl, rfl⟩
+
 end Iota.Tie.C03
